@@ -674,3 +674,85 @@ func init() {
 	register(&Scenario{Name: "macat-reply-stalled-requester", Prop: "C20", Horizon: 2 * time.Hour, Weight: 1, Run: c20ReplyStall})
 	register(&Scenario{Name: "macat-file-procfs", Prop: "C20", Horizon: time.Hour, Weight: 1, Run: c20ProcFile})
 }
+
+// c20SendRecv: the patterns that send and then print what comes back (REQ,
+// SURVEYOR, PAIR, BUS) against a peer that answers every message at once:
+// exactly --count messages go out, each with exactly the given bytes, and each
+// answer is printed as one record - for every interval spelling including the
+// explicit zero (with an answering peer nothing waits without limit).
+func c20SendRecv(w *W) {
+	pat := []struct{ flag, peer string }{{"--req", "rep"}, {"--surveyor", "respondent"}, {"--pair", "pair"}, {"--bus", "bus"}}[w.Choose(simrt.SShape, 4)]
+	count := 1 + w.Choose(simrt.SShape, 4)
+	ivals := []string{"0", "1", "250ms", "02", "0s"}
+	iv := ivals[w.Choose(simrt.SShape, len(ivals))]
+	w.SetShape("pattern", pat.flag)
+	w.SetShape("count", count)
+	w.SetShape("interval", iv)
+	data := fmt.Sprintf("ask-%d", w.Choose(simrt.SProg, 1000))
+	addr := w.Addr("inproc")
+	peer := w.Sock(pat.peer)
+	defer peer.Close()
+	if err := peer.Listen(addr); err != nil {
+		w.Failf("HARNESS/listen", "%v", err)
+		return
+	}
+	mustSet(w, peer, mangos.OptionRecvDeadline, time.Hour)
+	var got [][]byte
+	w.Go("answering peer", func() {
+		for {
+			b, err := peer.Recv()
+			if err != nil {
+				return
+			}
+			got = append(got, b)
+			if peer.Send([]byte(fmt.Sprintf("answer-%d", len(got)))) != nil {
+				return
+			}
+		}
+	})
+	args := []string{pat.flag, "--connect", addr, "--count", strconv.Itoa(count), "-i", iv, "--data", data, "--quoted"}
+	app := &macat.App{}
+	app.Initialize()
+	var out bytes.Buffer
+	app.VerifSetStdout(&out)
+	w.Op("macat %q", args)
+	run := w.Do("macat.Run", func() (interface{}, error) { return nil, app.Run(args...) })
+	if !run.Wait(time.Duration(count)*2*time.Second + 10*time.Second) {
+		w.Failf("C20/send-does-not-finish", "macat %q against a peer that answers every message at once is still running", args)
+		return
+	}
+	if run.Err != nil {
+		w.Failf("C20/run-error", "macat %q: %v", args, run.Err)
+		return
+	}
+	w.Sleep(time.Second)
+	w.Settle()
+	if len(got) != count {
+		w.Failf("C20/send-count", "macat %q: --count %d, the peer received %d messages", args, count, len(got))
+		return
+	}
+	for i, b := range got {
+		if string(b) != data {
+			w.Failf("C20/sent-bytes-differ", "macat %q: message %d arrived as %q", args, i, b)
+			return
+		}
+	}
+	recs := bytes.Split(out.Bytes(), []byte("\n"))
+	if len(recs) != count+1 || len(recs[count]) != 0 {
+		w.Failf("C20/quoted-output", "macat %q: %d answers arrived, %d newline-terminated records were printed: %q", args, count, len(recs)-1, out.Bytes())
+		return
+	}
+	for i := 0; i < count; i++ {
+		dec, err := unquote(recs[i])
+		if want := fmt.Sprintf("answer-%d", i+1); err != nil || string(dec) != want {
+			w.Failf("C20/quoted-output", "macat %q: record %d is %q, the answer was %q", args, i, recs[i], want)
+			return
+		}
+	}
+	w.Delivery += 2 * count
+	w.Probe("send-then-print-answer")
+}
+
+func init() {
+	register(&Scenario{Name: "macat-send-and-print-answers", Prop: "C20", Horizon: time.Hour, Weight: 6, Run: c20SendRecv})
+}
